@@ -16,15 +16,20 @@ Go code: label fields of the struct handed to `EncodeIntoBody` itself are not pa
 (`struct_roundtrip_counterexample`).  It holds exactly when those labels are empty (`struct_roundtrip_iff`),
 and without any side condition one level down, for `EncodeAsBlock` / `decodeBlockToValue`
 (`struct_roundtrip_block`).  Proofs: `Proofs/Gohcl*.lean`.
+
+Assumption of the model the theorems inherit (found by the `GOHCL` correspondence): strings are opaque here,
+while `cty.StringVal` normalises attribute strings, map keys and (through `hclwrite.NewBlock`) block labels to
+Unicode NFC — for the Go code the round trip holds for NFC strings (otherwise modulo NFC).  A value of Go type
+`int` is in the int64 range (`hasTy`), which `fromCty` checks as gocty does.
 -/
 namespace HclModel.Gohcl
 open HclModel.Body
 
 /-- One attribute: a Go value of a gocty-supported type without inner pointers, converted to cty, written out,
     read back, converted to the implied type of the target and loaded into it, is the same Go value. -/
-theorem attr_roundtrip (t : GTy) (v : GVal) (c : Val) (_ht : hasTy t v = true) (hp : noPtr t = true)
+theorem attr_roundtrip (t : GTy) (v : GVal) (c : Val) (ht : hasTy t v = true) (hp : noPtr t = true)
     (hc : toCty t v = some c) : decodeExpr t (reparse c) = some v :=
-  Proofs.attr_roundtrip t v c hp hc
+  Proofs.attr_roundtrip t v c ht hp hc
 
 /-- `toCty` is defined on every well-typed value (the encoder does not panic) -/
 theorem toCty_total (t : GTy) (v : GVal) (ht : hasTy t v = true) : (toCty t v).isSome = true :=
